@@ -2,6 +2,7 @@ import ComposeVerif.Ops.Common
 import ComposeVerif.Model.Dotenv
 import ComposeVerif.Spec.Dotenv
 import ComposeVerif.Model.DotenvTrace
+import ComposeVerif.Spec.DotenvPrint
 /-! line-protocol ops for C18: `dotenv` (model of `dotenv.UnmarshalWithLookup`) -/
 open Lean
 namespace CV.Ops.C18
@@ -130,5 +131,17 @@ def dotenvT : Handler := fun args =>
 /-- the names of the branch bits, so that the harness never has its own copy of the list -/
 def dotenvTags : Handler := fun _ => Json.arr (CV.Dotenv.tagNames.map Json.str).toArray
 
-def handlers : List (String × Handler) := handlers1 ++ [("dotenvSpec", dotenvSpec), ("dotenvT", dotenvT), ("dotenvTags", dotenvTags)]
+/-- round 6: the canonical printer (`Spec/DotenvPrint.lean`): the text of an ordered list of definitions, whether the
+    list is `Printable` (valid distinct names), and what the model parses the text to under the given lookup -/
+def dotenvCanon : Handler := fun args =>
+  let ks := (getStrList args "keys").map String.toList
+  let vs := (getStrList args "vals").map String.toList
+  let m : Map := ks.zip vs
+  let lookup := envOfList (getStrMap args "lookup")
+  let printable := m.all (fun kv => validKey kv.1) && decide ((m.map Prod.fst).Nodup)
+  let t := printCanon m
+  Json.mkObj [("text", str t), ("printable", Json.bool printable), ("parse", outJson (CV.Dotenv.parse t lookup))]
+
+def handlers : List (String × Handler) := handlers1 ++ [("dotenvSpec", dotenvSpec), ("dotenvT", dotenvT), ("dotenvTags", dotenvTags),
+  ("dotenvCanon", dotenvCanon)]
 end CV.Ops.C18
